@@ -155,11 +155,19 @@ def steps(src, limit=None):
     pkg = _PKG
     lim = limit or 1 << 62
 
+    cpu_lim = max(CPU_BUDGET, len(src) / 200.0) if limit else None
+    t_start = time.thread_time()
+
     def prof(frame, event, arg):
-        if event == "call" and frame.f_code.co_filename.startswith(pkg):
+        # every Python-level call made while parse() runs counts, also those the
+        # package makes into the standard library (copy.deepcopy, dataclass
+        # constructors): they are work of the parse
+        if event == "call":
             cnt[0] += 1
             if cnt[0] > lim:
                 raise _OverBudget()
+            if cpu_lim is not None and (cnt[0] & 1023) == 0 and time.thread_time() - t_start > cpu_lim:
+                raise _OverBudget("cpu")
 
     p = c_parser.CParser()
     sys.setprofile(prof)
@@ -171,8 +179,8 @@ def steps(src, limit=None):
         ok = "ParseError: " + str(e)[:80]
     except RecursionError:
         ok = "RecursionError"
-    except _OverBudget:
-        ok = "budget"
+    except _OverBudget as e:
+        ok = "budget-cpu" if e.args else "budget"
     finally:
         sys.setprofile(None)
     return cnt[0], time.thread_time() - t, ok
@@ -189,18 +197,20 @@ def steps_lines(src, limit=None):
     pkg = _PKG
 
     lim = limit or 1 << 62
+    cpu_lim = max(CPU_BUDGET, len(src) / 200.0) if limit else None
+    t_start = time.thread_time()
 
     def local(frame, event, arg):
         if event == "line":
             cnt[0] += 1
             if cnt[0] > lim:
                 raise _OverBudget()
+            if cpu_lim is not None and (cnt[0] & 4095) == 0 and time.thread_time() - t_start > cpu_lim:
+                raise _OverBudget("cpu")
         return local
 
     def tracer(frame, event, arg):
-        if frame.f_code.co_filename.startswith(pkg):
-            return local
-        return None
+        return local
 
     p = c_parser.CParser()
     sys.settrace(tracer)
@@ -212,8 +222,8 @@ def steps_lines(src, limit=None):
         ok = "ParseError: " + str(e)[:80]
     except RecursionError:
         ok = "RecursionError"
-    except _OverBudget:
-        ok = "budget"
+    except _OverBudget as e:
+        ok = "budget-cpu" if e.args else "budget"
     finally:
         sys.settrace(None)
     return cnt[0], time.thread_time() - t, ok
@@ -241,6 +251,8 @@ def in_big_thread(fn, *a):
     return out[0][1]
 
 
+CPU_BUDGET = 10.0  # seconds of thread CPU time for one parse of a family member (the unchanged tree needs < 0.1 s)
+FIRST_SIZE_BUDGET = 3000000  # events; the smallest members of all families take < 60 000 on the unchanged tree
 RATIO = 2.3
 SLACK = 400
 
@@ -254,9 +266,15 @@ def check_family(name, builder, ks, st, case, measure=None):
         src = builder(k)
         # no input of a family is followed beyond 16x the allowance for its size:
         # exponential work is reported, not waited for
-        budget = None if prev is None else int(16 * (RATIO * prev[1] + SLACK) * max(1.0, float(k) / (2 * prev[0])))
+        budget = FIRST_SIZE_BUDGET if prev is None else int(16 * (RATIO * prev[1] + SLACK) * max(1.0, float(k) / (2 * prev[0])))
         n, t, ok = measure(src, budget)
         st.evaluations += 1
+        if ok == "budget-cpu":
+            # (CPU time of this thread, 1000x above what the unchanged tree needs for
+            # inputs of this length: work inside C-level operations that events do not see)
+            fail("growth", case, src[:400], "family %s: at k=%d (%d characters) the parse was abandoned after %.0f s of CPU time and %d events; the sizes before: %s" % (name, k, len(src), max(CPU_BUDGET, len(src) / 200.0), n, series), "short-input-explodes")
+        if ok == "budget" and prev is None:
+            fail("growth", case, src[:400], "family %s: its smallest member (k=%d, %d characters) was abandoned after %d events - no input of a few hundred characters may cost that much" % (name, k, len(src), n), "short-input-explodes")
         if ok == "budget":
             fail("growth", case, builder(ks[0]), "family %s: work %s - at k=%d the parse was abandoned after %d events (16x what doubling allows; k=%d took %d)" % (name, series, k, n, prev[0], prev[1]), "superlinear")
         if ok is not True:
@@ -309,6 +327,8 @@ def nest_shard(arg):
                 valid = check_family(name, lambda k, us=us: build(kind, us, k), kk, st, ("nest", kind, [list(u) for u in us], list(kk)))
             except CheckFailure as f:
                 st.failures.append(f.failure)
+                if len(st.failures) >= 4:
+                    return  # enough evidence from this part; every failure may have cost a CPU budget
                 continue
             if valid:
                 st.classes["valid_families"] += 1
@@ -565,7 +585,7 @@ def lex_shard(names):
 
 def run(ctx):
     nparts = 6
-    jobs = [(kind, p, nparts, ctx.quick) for kind in ("E", "S", "D") for p in range(nparts)] + [("T", 0, 1, ctx.quick)]
+    jobs = [(kind, p, nparts, ctx.quick) for kind in ("E", "S", "D") for p in range(nparts)] + [("T", p, 8, ctx.quick) for p in range(8)]
     ctx.map(nest_shard, jobs)
     names = sorted(REPEAT)
     ctx.map(repeat_shard, [(names[i::6], ctx.quick) for i in range(6)])
